@@ -230,6 +230,9 @@ func describe(fn model.FunctionType, T reflect.Type) *TypeInfo {
 		if f.Kind == KBool {
 			f.Domain = 2
 		}
+		if f.Key && f.Kind == KUint {
+			f.Domain = 400 // numeric identifiers: room for the long lists of the overlap histories
+		}
 		ti.Fields = append(ti.Fields, f)
 	}
 	ft := reflect.TypeOf(model.FilterType{})
